@@ -108,7 +108,8 @@ def h17b(c, ladder="betfair"):
     else:
         price = live[i]
         table = None
-    r = utils.price_ticks_away(price, n) if ladder == "betfair" else utils.price_ticks_away(price, n, live)
+    with c.guard("price_ticks_away"):
+        r = utils.price_ticks_away(price, n) if ladder == "betfair" else utils.price_ticks_away(price, n, live)
     c.observe("result", r)
     j = c.smin(c.smax(i + n, 0), n_ticks - 1)
     if c.mode == "sym":
